@@ -263,6 +263,50 @@ mod verif_bounded_dbm {
 
     thread_local! { static RESULT_ONLY: std::cell::RefCell<Option<String>> = std::cell::RefCell::new(None); }
 
+
+    // the first level of the enumeration is spread over threads (every sequence uses its own in-memory database)
+    fn explore_par(w: &World, prefix: &[Op], depth: usize, ops: &[Op], count: &mut usize) -> Result<(), String> {
+        let n_threads = 14usize;
+        let results: Vec<(Result<(), String>, usize, Option<String>)> = std::thread::scope(|sc| {
+            let handles: Vec<_> = (0..n_threads)
+                .map(|t| {
+                    sc.spawn(move || {
+                        let mut cnt = 0usize;
+                        let mut res = Ok(());
+                        for (i, op) in ops.iter().enumerate() {
+                            if i % n_threads != t {
+                                continue;
+                            }
+                            let mut p = prefix.to_vec();
+                            p.push(op.clone());
+                            res = explore(w, &mut p, depth - 1, ops, &mut cnt);
+                            if res.is_err() {
+                                break;
+                            }
+                        }
+                        (res, cnt, RESULT_ONLY.with(|r| r.borrow().clone()))
+                    })
+                })
+                .collect();
+            handles.into_iter().map(|h| h.join().unwrap()).collect()
+        });
+        let mut out = Ok(());
+        for (r, c, ro) in results {
+            *count += c;
+            if out.is_ok() && r.is_err() {
+                out = r;
+            }
+            if let Some(e) = ro {
+                RESULT_ONLY.with(|x| {
+                    if x.borrow().is_none() {
+                        *x.borrow_mut() = Some(e);
+                    }
+                });
+            }
+        }
+        out
+    }
+
     #[test]
     fn verif_bounded_dbm() {
         let w = World {
@@ -275,8 +319,8 @@ mod verif_bounded_dbm {
         // (a) sequences of at most 4 operations starting with a registration (a sequence covers its prefixes)
         'a: for t in 0..2 {
             for e in 0..2 {
-                let mut p = vec![Op::Register(t, e)];
-                res = explore(&w, &mut p, 3, &ops, &mut count);
+                let p = vec![Op::Register(t, e)];
+                res = explore_par(&w, &p, 3, &ops, &mut count);
                 if res.is_err() {
                     break 'a;
                 }
@@ -284,8 +328,8 @@ mod verif_bounded_dbm {
         }
         // (b) 3 operations after both towers have been registered
         if res.is_ok() {
-            let mut p = vec![Op::Register(0, 0), Op::Register(1, 0)];
-            res = explore(&w, &mut p, 3, &ops, &mut count);
+            let p = vec![Op::Register(0, 0), Op::Register(1, 0)];
+            res = explore_par(&w, &p, 3, &ops, &mut count);
         }
         match (res, RESULT_ONLY.with(|r| r.borrow().clone())) {
             (Err(e), _) => {
